@@ -79,11 +79,21 @@ class Transport:
     def is_closed(self):
         return txaio.create_future_success(None) if self.closed else txaio.create_future()
 
+    sync_close = False       # an in-process transport: close() reports the loss to the session before it returns
+
     def close(self):
         self.rec.re["closes"] += 1
+        self._maybe_sync_lost()
 
     def abort(self):
         self.rec.re["closes"] += 1
+        self._maybe_sync_lost()
+
+    def _maybe_sync_lost(self):
+        if self.sync_close and not self.rec.lost_flag:
+            self.rec.lost_flag = True
+            self.rec.synclost_now = True
+            self.rec.sess.onClose(True)
 
     def get_channel_id(self, t="tls-unique"):
         return None
@@ -144,6 +154,8 @@ class Recorder:
         self.nrx = 0
         self.reent = None         # re-entrant unsubscribe planned for the event being dispatched
         self.sync_m = None        # the reply the transport delivered from inside send() during the current API call
+        self.lost_flag = False    # the session has been told that its transport is gone
+        self.synclost_now = False
         self.futs = {}            # rid -> the future / Deferred returned by the API call
         self.cancelled = set()    # call request ids whose result the caller cancelled while pending
         self.handlers = {}        # hid -> fn
@@ -268,6 +280,8 @@ class Recorder:
     def step(self, ev):
         fw.settle()
         ev["re"] = self.re
+        ev["synclost"] = bool(self.synclost_now)
+        self.synclost_now = False
         ev["obs"] = self.obs()
         ev.update(self.flags)
         if self.why:
@@ -920,10 +934,10 @@ def scenario(rng, profile):
             rid1 = R.last_req()
             rx(message.Subscribed(rid1, 11), dict(t="subscribed", req=rid1, sub=11, unsub=False))
     steps = rng.randint(4, 16)
-    lost = False
+    R.tr.sync_close = profile == "c06" and rng.random() < 0.25
     for _ in range(steps):
         r = rng.random()
-        if lost:
+        if R.lost_flag:
             if r < 0.5:
                 rnd_api()
             elif r < 0.7:
@@ -941,10 +955,11 @@ def scenario(rng, profile):
             nm = rng.choice(["leave", "disconnect"])
             api(nm, s.leave if nm == "leave" else s.disconnect)
         elif r < 0.97 or profile == "c06" and r < 0.99:
+            R.lost_flag = True
             s.onClose(rng.random() < 0.5)
             R.step(dict(ev="lost"))
-            lost = True
-    if not lost:
+    if not R.lost_flag:
+        R.lost_flag = True
         s.onClose(True)
         R.step(dict(ev="lost"))
     rnd_api()
